@@ -146,8 +146,9 @@ fn wide_apply(body: &Term, arg: &Term) -> Option<Term> {
 
 /// Single substitutions with indices close to usize::MAX.  An index is a usize; where the mathematically correct
 /// result needs an index above usize::MAX the crate must REFUSE (panic), never return a term in which the index has
-/// wrapped around to UD or to a bound variable.  The model (unbounded naturals) decides which case applies; the oracle
-/// below additionally flags the tell-tale symptom by itself: UD in a result whose inputs contain none.
+/// wrapped around to UD or to a bound variable.  Which case applies is decided twice, independently: by the model
+/// (unbounded naturals, through the driver) and by `wide_apply` below (128-bit arithmetic, for every `applyb`); the oracle
+/// additionally flags the tell-tale symptom by itself: UD in a result whose inputs contain none.
 /// This run uses a harness binary built WITHOUT overflow checks (what a release build of a user's program does).
 pub fn boundary(ctx: &mut Ctx) {
     let m = usize::MAX;
@@ -1025,9 +1026,6 @@ pub fn c07(ctx: &mut Ctx) {
     }
 }
 
-/// terms that HAVE a normal form but contain a diverging subterm that must be discarded unreduced, placed in
-/// every kind of position: argument of a redex, any argument of a variable-headed spine (first, middle, last),
-/// under a binder in an argument, inside the operator, nested two levels deep, inside pair/list bodies
 /// terms WITHOUT a normal form that have a weak head normal form and/or a head normal form: CBN resp. HSP must
 /// terminate on them (the rest of C07), placed at top level, under binders and in operator position
 fn headform_family() -> Vec<Term> {
@@ -1075,6 +1073,9 @@ pub fn long_programs() -> Vec<Term> {
     ]
 }
 
+/// terms that HAVE a normal form but contain a diverging subterm that must be discarded unreduced, placed in
+/// every kind of position: argument of a redex, any argument of a variable-headed spine (first, middle, last),
+/// under a binder in an argument, inside the operator, nested two levels deep, inside pair/list bodies
 fn divergent_family(ctx: &mut Ctx) -> Vec<Term> {
     let om = abs(app(Var(1), Var(1)));
     let omega = app(om.clone(), om.clone());
